@@ -22,6 +22,11 @@ open Py Gen.Meta Meta
 
 def isCont (b : Nat) : Bool := 0x80 ≤ b && b ≤ 0xBF
 
+/-- range of the second byte after lead byte `b0` (Unicode table 3-7: no overlong forms, no surrogates,
+nothing above U+10FFFF) -/
+def secondLo (b0 : Nat) : Nat := if b0 == 0xE0 then 0xA0 else if b0 == 0xF0 then 0x90 else 0x80
+def secondHi (b0 : Nat) : Nat := if b0 == 0xED then 0x9F else if b0 == 0xF4 then 0x8F else 0xBF
+
 /-- decode one code point from the front: `(code point, rest)` -/
 def utf8Next : List Nat → Option (Nat × List Nat)
   | [] => none
@@ -34,17 +39,13 @@ def utf8Next : List Nat → Option (Nat × List Nat)
     else if 0xE0 ≤ b0 && b0 ≤ 0xEF then
       match r with
       | b1 :: b2 :: r2 =>
-        let lo := if b0 == 0xE0 then 0xA0 else 0x80
-        let hi := if b0 == 0xED then 0x9F else 0xBF
-        if lo ≤ b1 && b1 ≤ hi && isCont b2 then
+        if secondLo b0 ≤ b1 && b1 ≤ secondHi b0 && isCont b2 then
           some ((b0 - 0xE0) * 4096 + (b1 - 0x80) * 64 + (b2 - 0x80), r2) else none
       | _ => none
     else if 0xF0 ≤ b0 && b0 ≤ 0xF4 then
       match r with
       | b1 :: b2 :: b3 :: r3 =>
-        let lo := if b0 == 0xF0 then 0x90 else 0x80
-        let hi := if b0 == 0xF4 then 0x8F else 0xBF
-        if lo ≤ b1 && b1 ≤ hi && isCont b2 && isCont b3 then
+        if secondLo b0 ≤ b1 && b1 ≤ secondHi b0 && isCont b2 && isCont b3 then
           some ((b0 - 0xF0) * 262144 + (b1 - 0x80) * 4096 + (b2 - 0x80) * 64 + (b3 - 0x80), r3) else none
       | _ => none
     else none
